@@ -276,7 +276,9 @@ def sort_assignments(
                 "Try to save the ODE to an .ode file first and load it again"
             )
             raise exceptions.GotranxError(msg)
-        sorter.add(assignment.name, *assignment.value.dependencies)
+        # Sort the dependencies: the iteration order of a (frozen)set of strings
+        # changes with PYTHONHASHSEED and would leak into the order of the result
+        sorter.add(assignment.name, *sorted(assignment.value.dependencies))
 
     static_order = tuple(sorter.static_order())
 
